@@ -900,7 +900,7 @@ def run(ctx, res):
 
     mark("corpus+tables")
     # ---- findings ----------------------------------------------------------------------------------------------
-    nf = 900 if thorough else 260
+    nf = 6000 if thorough else 260
     findings = [gen_finding(rng, res) for _ in range(nf)]
     ncorp = 0
     rc, vout, err = core.run_lines(exe, [], ["version"])
@@ -926,7 +926,7 @@ def run(ctx, res):
     # R: reader model vs expat on mutated documents (model wf => expat wf and same content)
     docs = [core.unhx(impl[i]) for i in keep if not impl[i].startswith("throw")]
     muts = []
-    for d in rng.sample(docs, min(len(docs), 150 if thorough else 60)):
+    for d in rng.sample(docs, min(len(docs), 1500 if thorough else 60)):
         for _ in range(3):
             b = bytearray(d)
             k = rng.randrange(4)
@@ -977,7 +977,7 @@ def run(ctx, res):
         for t in (tf, tl):
             for er in (0, 1):
                 raw_t.append((t, er, 0))
-    for _ in range(60 if thorough else 25):
+    for _ in range(400 if thorough else 25):
         t, _n = gen_template(rng, FIELDS + ["bold", "reset", "red", "dim", "magenta", "default", "green", "blue"], hostile=rng.random() < 0.3)
         t = t.replace(b"\n", b"\\n").replace(b"\t", b"\\t") + rng.choice([b"", b"\\", b"\\b", b"{reset"])
         raw_t.append((t, rng.randrange(2), 0))
@@ -995,7 +995,7 @@ def run(ctx, res):
     final_tpls = []
     for tf, tl, origin in tpls:
         final_tpls.append((static_out[(tf, 1)], static_out[(tl, 1)], origin))
-    for _ in range(120 if thorough else 50):
+    for _ in range(800 if thorough else 50):
         tf, nm = gen_template(rng, FIELDS, hostile=rng.random() < 0.12)
         tl = b"" if rng.random() < 0.5 else gen_template(rng, LOCFIELDS, hostile=rng.random() < 0.1)[0]
         final_tpls.append((tf, tl, "generated"))
@@ -1020,7 +1020,7 @@ def run(ctx, res):
     mark("text")
     # ---- C4: SARIF ---------------------------------------------------------------------------------------------------
     groups = []
-    for _ in range(120 if thorough else 40):
+    for _ in range(1500 if thorough else 40):
         n = rng.choice([0, 1, 2, 3, 5])
         profile = rng.choice(["clean", "clean", "msg", "raw"])
         g = [gen_finding(rng, None, profile) for _ in range(n)]
@@ -1235,7 +1235,7 @@ def cli_tier(ctx, res, thorough):
     cases.append(dict(kind="cli", name="same-text-template-id", mode="sarif", template=h(b"{id}"), files=[[h(b"a.c"), 1, h(b"A")], [h(b"b.c"), 1, h(b"B")]]))
     cases.append(dict(kind="cli", name="plain", mode="xml", files=[[h(b"a.c"), 2, h(b"plain <text> & more")], [h(b"dir name/b c.c"), 1, h(b"x")]]))
     cases.append(dict(kind="cli", name="plain", mode="sarif", files=[[h(b"a.c"), 2, h(b"plain \"text\" \\ / \x01")]]))
-    n = 14 if thorough else 3
+    n = 60 if thorough else 3
     for _ in range(n):
         k = rng.choice([1, 2, 2, 3])
         files = []
